@@ -130,11 +130,12 @@ def hook_missing(build_log):
 # running
 # --------------------------------------------------------------------------------------------
 class Case:
-    __slots__ = ("idx", "seed", "script", "ops", "answers", "monitors", "cover", "stats", "ended", "skipped")
+    __slots__ = ("idx", "seed", "script", "ops", "answers", "monitors", "cover", "cells", "stats", "ended", "skipped")
 
     def __init__(self, idx, seed):
         self.idx, self.seed = idx, seed
         self.script, self.ops, self.answers, self.monitors, self.cover, self.skipped = [], [], [], [], [], []
+        self.cells = []
         self.stats = {}
         self.ended = False
 
@@ -162,6 +163,8 @@ def parse_output(text):
             cur.monitors.append(rest)
         elif tag == "V":
             cur.cover.append(rest)
+        elif tag == "K":
+            cur.cells.append(rest)
         elif tag == "S":
             cur.skipped.append(rest)
         elif tag == "E":
@@ -204,7 +207,7 @@ def run_gen(exe, seed, first, last, maxops, tag):
 
 def run_replay(exe, lines, tag="replay"):
     os.makedirs(WORK, exist_ok=True)
-    path = os.path.join(WORK, f"dynroots-{tag}.script")
+    path = os.path.join(WORK, f"dynroots-{tag}-{os.getpid()}.script")   # concurrent checks (C14 / C20) must not share scratch files
     with open(path, "w") as f:
         f.write("\n".join(lines) + "\n")
     try:
@@ -222,7 +225,7 @@ def run_replay(exe, lines, tag="replay"):
 
 def ask_model(exe, cases, tag="run"):
     """One `dynmodel` process for all cases (a `reset` line between them)."""
-    inp = os.path.join(WORK, f"dynroots-model-{tag}.in")
+    inp = os.path.join(WORK, f"dynroots-model-{tag}-{os.getpid()}.in")
     with open(inp, "w") as f:
         for c in cases:
             f.write("reset\n")
@@ -325,6 +328,7 @@ class Agg:
         self.n_mon = 0
         self.n_diff = 0
         self.cover = collections.Counter()
+        self.cells = collections.Counter()
         self.distinct = set()
         self.stash = self.reuse = self.coll = 0
         self.groups = collections.OrderedDict()
@@ -335,6 +339,7 @@ class Agg:
             self.cases += 1
             self.n_ops += len(c.ops)
             self.cover.update(c.cover)
+            self.cells.update(c.cells)
             self.stash += c.stats.get("stash", 0)
             self.reuse += c.stats.get("reuse", 0)
             self.coll += c.stats.get("coll", 0)
@@ -410,8 +415,9 @@ def analyse(prop, tier, seed, hexe, mexe, agg, crashes, timings, do_shrink=True)
                   f"harness: {HARNESS_SRC} (gc-arena from {REPO}); tier={tier} seed={seed} case={c0.idx} case_seed={c0.seed} shrink_replays={replays}",
                   "the body is a script for the harness, one operation per line: arena a<N> | newset a<N> s<N> | unlink s<N> | "
                   "stashnew s<N> <payload id> h<N> | stashvia s<N> h<src> h<new> | clone h<N> h<new> | drop h<N> | fetch|tryfetch|contains s<N> h<N> | "
-                  "dump s<N> | collect a<N> debt <x>|mark <x>|finmark|cycle <x>|fincycle | alloc a<N> <n> <keep> | clearjunk a<N> | droparena a<N> | "
-                  "end arenas-first|handles-first",
+                  "dump s<N> | collect a<N> debt <x>|mark <x>|finmark|cycle <x>|fincycle|step <x> | alloc a<N> <n> <keep> | clearjunk a<N> | droparena a<N> | "
+                  "weaknew a<N> <payload id> (object reachable only through a GcWeak in the root) | stashweak s<N> <payload id> h<N> (upgrade that "
+                  "weak pointer and stash the result) | weakdrop a<N> <payload id> | park s<N> | unpark s<N> | end arenas-first|handles-first",
                   f"replay: {hexe} replay <this file>     (M lines = monitors; O/A lines = model op / implementation answer)",
                   f"   or : python3 {os.path.join(ROOT, 'lib', 'eng_dynroots.py')} replay {prop} <this file>"]
         problems.append(dict(name=re.sub(r"[^A-Za-z0-9]+", "-", f"dynroots-{sig}-{k}").strip("-"), text=text,
@@ -430,11 +436,20 @@ def analyse(prop, tier, seed, hexe, mexe, agg, crashes, timings, do_shrink=True)
         kind, state, phase = (v.split("|") + ["-", "-"])[:3]
         table.setdefault(kind, {}).setdefault(state, {})[phase] = n
     samples = agg.samples
+    # colour cells of the stashes: op | phase | colour of the set object | colour of the stashed object | first stash of
+    # the marking | stashed / dead (upgrade failed)
+    cells = {}
+    for v, n in sorted(agg.cells.items(), key=lambda kv: -kv[1]):
+        cells[v] = n
+    directed = sum(n for v, n in agg.cells.items()
+                   if v.startswith("stash-weak|mark") and "|set=B|target=w|first=1|stashed" in v)
     summary = {f"dynroots_{prop}": dict(
         tier=tier, seed=seed, repo=REPO, cases=n_cases, model_ops_compared=agg.n_ops, monitor_cases=agg.n_mon,
         disagreeing_cases=agg.n_diff, harness_crashes=len(crashes), nontrivial_distinct=len(agg.distinct),
         stashes=agg.stash, slot_reuses=agg.reuse, collections_with_live_handles=agg.coll,
-        coverage_opkind_setstate_phase=table, timings_s=timings)}
+        coverage_opkind_setstate_phase=table,
+        stash_colour_cells=cells, black_set_adopts_white_weak_first_stash_of_marking=directed,
+        timings_s=timings)}
     return dict(problems=problems, evaluations=n_cases, distinct_nontrivial=len(agg.distinct), rule=RULE, samples=samples,
                 programs=0, disagreements_checked=agg.n_ops, summary=summary)
 
@@ -516,7 +531,19 @@ def run(prop, tier, seed):
     t = time.time()
     res = analyse(prop, tier, seed, hexe, mexe, agg, crashes, timings)
     timings["analyse_shrink"] = round(time.time() - t, 1)
+    _cleanup()
     return res
+
+
+def _cleanup():
+    """Remove this process's scratch files (the replay carries everything worth keeping)."""
+    suffix = f"-{os.getpid()}"
+    try:
+        for f in os.listdir(WORK):
+            if f.startswith("dynroots-") and (f.endswith(suffix + ".in") or f.endswith(suffix + ".script")):
+                os.remove(os.path.join(WORK, f))
+    except OSError:
+        pass
 
 
 def replay(prop, path):
@@ -534,6 +561,7 @@ def replay(prop, path):
                     for i, (o, a) in enumerate(zip(c.ops, c.answers))]
     res["monitors"] = c.monitors
     res["skipped"] = c.skipped
+    _cleanup()
     return res
 
 
